@@ -75,3 +75,47 @@ def _(self):
     w = self.profile.cn_region.end - self.profile.cn_region.start
     ensures(result * (w if w >= 0 else -w) == sum(self._cnv_coverage[i] for i in self._cnv_coverage))
     modifies()
+
+
+def region_sum(cov, g, r):
+    """Total depth over one gene region (C07: S_r)."""
+    return sum(depth(cov, i) for i in range(cov.gene.regions[g][r].start, cov.gene.regions[g][r].end))
+
+
+def neutral_sum(cov):
+    """Sample depth summed over the copy-number-neutral region (C07: N_s)."""
+    return sum((cov._cnv_coverage[i] if i in cov._cnv_coverage else 0)
+               for i in range(cov.profile.cn_region.start, cov.profile.cn_region.end))
+
+
+def profile_value(cov, g, r):
+    return cov.profile.data[cov.gene.name][r][g]
+
+
+def is_region(cov, g, r):
+    return 0 <= g and g < len(cov.gene.regions) and r in cov.gene.regions[g]
+
+
+@contract("aldy.coverage.Coverage._normalize_coverage")
+def _(self):
+    requires(self.profile.cn_region is not None, self.profile.data is not None)
+    # data precondition (surfaced from the look-up profile.data[gene][region][gene index]):
+    # the profile lists every region of every gene copy
+    requires(self.gene.name in self.profile.data)
+    requires(forall(lambda g=int, r=str: implies(is_region(self, g, r),
+                                                 r in self.profile.data[self.gene.name]
+                                                 and g < len(self.profile.data[self.gene.name][r]))))
+    N = neutral_sum(self)
+    V = self.profile.neutral_value
+    # C07: "A sample with no reads in the copy-number-neutral region is rejected instead of being normalised."
+    raises(AldyException, when=(N == 0 or V == 0))
+    # C07: value = (profile neutral depth / sample neutral depth) * region depth / (profile region depth per copy);
+    #      0.0 where the profile has no depth for the region
+    ensures(forall(lambda g=int, r=str: implies(
+        is_region(self, g, r),
+        (g, r) in self._region_coverage
+        and implies(profile_value(self, g, r) != 0,
+                    self._region_coverage[g, r] == (V / N) * region_sum(self, g, r) / (profile_value(self, g, r) / 2))
+        and implies(profile_value(self, g, r) == 0, self._region_coverage[g, r] == 0))), label="normalised")
+    ensures(forall(lambda g=int, r=str: implies((g, r) in self._region_coverage, is_region(self, g, r))), label="only-regions")
+    modifies(self._region_coverage)
